@@ -57,6 +57,11 @@
       hence `converted_circuit_implements_product_labelled` needs no hypothesis on the labelling any more.  The
       pinned labelling (CNOTs only in the interaction graph) fails it (`pinned_labelling_fails_cut_check`), and an
       arbitrary maximal forest is not enough (`other_maximal_forest_fails_cut_check`);
+    * THE WHOLE CONVERTED PROCESSOR (section "(10)"): `convGatesM` builds the list of placed gates as
+      `_generate_converted_processor` does; it has the shape `convShape` computes, its SWAPs are proved steps, no
+      herald mode is shared, and the conversion goes through on every valid sequence; hence
+      `converted_processor_implements`: logical table = (∏ scalars) • product of the source gates, with no
+      hypothesis left on labelling, shape, SWAPs or herald sharing;
   What is still NOT proved (validated per instance by the correspondence, see manifest.d/C20.json):
     * the other multi-photon catalog matrices (KLM CNOT — algebraic but not done —, post-processed CCZ, Toffoli, the
       n-qubit controlled rotations for all angles, optimiser-fitted one-qubit gates);
@@ -73,6 +78,7 @@ import PercevalModel.Lemmas.C20Dfs
 import PercevalModel.Lemmas.C20Catalog
 import PercevalModel.Lemmas.C20LabelCut
 import PercevalModel.Lemmas.C20Swap
+import PercevalModel.Lemmas.C20Whole
 import Mathlib.Analysis.Real.Sqrt
 import Mathlib.Data.Complex.Basic
 
@@ -1126,5 +1132,71 @@ example : ∃ P : Placement swapLayout (convLayout 3 [1, 1]),
     (List.ofFn fun k : Fin 4 => (P.f k).val) = [4, 5, 0, 1] :=
   ⟨swapPlacement 3 [1, 1] 2 0 (by decide) (by decide) (by decide), by
     simp [Placement.f, swapPlacement, List.ofFn_succ]⟩
+
+/-! ### (10) the whole converted processor (`Lemmas/C20Whole.lean`) -/
+
+/-- **a processor converted from a gate-based circuit acts on the logical basis as the source circuit's product of
+gates, up to one scalar** — the second sentence of the property, for the converter's own choice of heralded and
+post-processed CNOTs.  `convGatesM` is the list of gates `_generate_converted_processor` places for the source
+sequence `src` with the labels `label_cnots_in_gate_sequence` computes (one-qubit gates on their rails, catalog
+two-qubit gates on `gateModes` with the running index of their herald pair, SWAPs as the four-rail `PERM`); when the
+conversion goes through (`some cgs`, see `conversion_succeeds_on_valid_sequences`) the circuit made of the placed
+matrices has the logical table `(∏ scalars) • (Gₙ ⋯ G₁)`.  No hypothesis is left on the labelling, the shape, the
+SWAPs or the sharing of herald modes; the hypotheses are: gates on one or two qubits, no foreign gate named
+"postprocessed cnot", herald values ≤ 1 (all catalog gates), a post-selection accepting the logical states, and the
+five polynomial relations between the beam-splitter entries (`heralded_cz_params_exist`). -/
+theorem converted_processor_implements [Field R] [CharZero R] (n : ℕ) (hv : List ℕ) (hle : ∀ v ∈ hv, v ≤ 1)
+    (oneQ : Gate → Matrix (Fin 2) (Fin 2) R) (ps : PS)
+    (hps : ∀ b : List Bool, b.length = (convLayout n hv).qubits.length → ps.eval (encode (convLayout n hv) b) = true)
+    (r h c2 s2 : R) (hr : 3 * r * r = 1) (hh : 2 * h * h = 1) (hc : 6 * c2 * c2 = 3 + 6 * h * r)
+    (hs : 6 * s2 * s2 = 3 - 6 * h * r) (hcs : 2 * c2 * s2 = r)
+    (src : List Gate) (hq : ∀ g ∈ src, g.qubits.length = 1 ∨ g.qubits.length = 2)
+    (hname : ∀ g ∈ src, isCnot g = false → g.name.toUpper ≠ "POSTPROCESSED CNOT")
+    (cgs : List (ConvGate (convLayout n hv) R))
+    (hconv : convGatesM n hv oneQ src (labelCnots true src) 0 = some cgs) :
+    gateTable (PM.C02.circuitMatrix ((convSteps r h c2 s2 cgs).map (·.U))) (convLayout n hv) ps =
+      (((convSteps r h c2 s2 cgs).map (·.c)).prod) •
+        (convSteps r h c2 s2 cgs).foldl (fun M g => g.G * M) 1 :=
+  converted_circuit_implements_product_labelled (convLayout_ok n hv) (convLayout_heralds_le n hv hle) ps hps
+    r h c2 s2 hr hh hc hs hcs cgs (convGatesM_good n hv hle oneQ src _ 0 cgs hconv) src hq hname
+    (convGatesM_shape n hv oneQ r h c2 s2 src _ 0 cgs hconv)
+    (convGatesM_pairwise n hv oneQ r h c2 s2 src _ 0 cgs hconv)
+
+/-- the conversion goes through on every sequence of accepted gates (one qubit in range, or two distinct qubits in
+range with a known label) when the layout carries the herald values `planHeralds` lists -/
+theorem conversion_succeeds_on_valid_sequences [Field R] [CharZero R] (n : ℕ)
+    (oneQ : Gate → Matrix (Fin 2) (Fin 2) R) (gs : List Gate) (ls : List String)
+    (hok : List.Forall₂ (GateOk n) gs ls) :
+    (convGatesM n (planHeralds (planKinds true gs ls)) oneQ gs ls 0).isSome = true :=
+  convGatesM_succeeds n oneQ gs ls 0 _ hok (by simp)
+
+/-- the herald values of a converted processor are 0 or 1 -/
+theorem converted_heralds_le_one (kinds : List String) : ∀ v ∈ planHeralds kinds, v ≤ 1 :=
+  planHeralds_le_one kinds
+
+/-- the placed gates have the shape `convShape` computes, the SWAPs are proved steps, no herald mode is shared -/
+theorem converted_gates_shape_good_disjoint [Field R] [CharZero R] (n : ℕ) (hv : List ℕ) (hle : ∀ v ∈ hv, v ≤ 1)
+    (oneQ : Gate → Matrix (Fin 2) (Fin 2) R) (r h c2 s2 : R) (gs : List Gate) (ls : List String) (j : ℕ)
+    (cgs : List (ConvGate (convLayout n hv) R)) (hconv : convGatesM n hv oneQ gs ls j = some cgs) :
+    (convSteps r h c2 s2 cgs).map (fun s => (s.Q, s.leaky)) = convShape true gs ls ∧ (∀ cg ∈ cgs, cg.Good) ∧
+      (convSteps r h c2 s2 cgs).Pairwise
+        (fun g g' => ∀ hd ∈ (convLayout n hv).heralds, hd.1 ∉ g.S ∨ hd.1 ∉ g'.S) :=
+  ⟨convGatesM_shape n hv oneQ r h c2 s2 gs ls j cgs hconv, convGatesM_good n hv hle oneQ gs ls j cgs hconv,
+    convGatesM_pairwise n hv oneQ r h c2 s2 gs ls j cgs hconv⟩
+
+-- non-vacuity: `h(0); cx(0,1); cz(1,2); swap(0,3); cx(3,2)` on four qubits is a valid sequence with the labels the
+-- converter computes, so the conversion goes through and `converted_processor_implements` applies to it
+example : let gs : List Gate := [⟨"h", [0]⟩, ⟨"cx", [0, 1]⟩, ⟨"cz", [1, 2]⟩, ⟨"swap", [0, 3]⟩, ⟨"cx", [3, 2]⟩]
+    List.Forall₂ (GateOk 4) gs (labelCnots true gs) ∧
+    planHeralds (planKinds true gs (labelCnots true gs)) = [1, 1, 1, 1, 0, 0] := by
+  refine ⟨?_, by decide +kernel⟩
+  have hl : labelCnots true [⟨"h", [0]⟩, ⟨"cx", [0, 1]⟩, ⟨"cz", [1, 2]⟩, ⟨"swap", [0, 3]⟩, ⟨"cx", [3, 2]⟩] =
+      ["h", "heralded cnot", "cz", "swap", "postprocessed cnot"] := by decide +kernel
+  simp only [hl]
+  refine List.Forall₂.cons (Or.inl ⟨0, rfl, by decide⟩) (List.Forall₂.cons (Or.inr ⟨0, 1, rfl, by decide, by decide,
+    by decide, Or.inr (Or.inr (Or.inl (by decide +kernel)))⟩) (List.Forall₂.cons (Or.inr ⟨1, 2, rfl, by decide,
+    by decide, by decide, Or.inr (Or.inl (by decide +kernel))⟩) (List.Forall₂.cons (Or.inr ⟨0, 3, rfl, by decide,
+    by decide, by decide, Or.inl (by decide +kernel)⟩) (List.Forall₂.cons (Or.inr ⟨3, 2, rfl, by decide, by decide,
+    by decide, Or.inr (Or.inr (Or.inr (by decide +kernel)))⟩) List.Forall₂.nil))))
 
 end PM.C20
